@@ -585,6 +585,8 @@ def random_schema(rng, nmsgs=None, features=None):
     schema = []
     for ci in range(nmsgs):
         nf = rng.choice([1, 2, 3, 4, 6, 9])
+        if ci > 0 and rng.random() < 0.12:
+            nf = 0          # a message type without fields (what an older schema that dropped them all has): __setattr__ treats it specially
         nums = rng.sample([1, 2, 3, 4, 5, 7, 15, 16, 17, 100, 2047, 2048, 19000, 262143, 536870911], nf)
         ngroups = 0
         fields = []
